@@ -21,7 +21,7 @@ CONSTANTS MnPool, MacroPool, RegPool, PrePool, Probes
 VARIABLE voc
 
 LowerOf(w) == CASE w = "LD" -> "ld" [] w = "Ld.B" -> "ld.b" [] w = "Mov" -> "mov" [] w = "MOV" -> "mov" [] w = "A" -> "a"
-                [] w = "SP" -> "sp" [] w = "Push2" -> "push2" [] w = "LDM" -> "ldm" [] OTHER -> w
+                [] w = "SP" -> "sp" [] w = "Push2" -> "push2" [] w = "LDM" -> "ldm" [] w = "AH" -> "ah" [] w = "B1" -> "b1" [] OTHER -> w
 CompilerDirectives == {"org", "memzone", "align"}
 DataDirectives == {"fill", "zero", "zerountil", "byte", "2byte", "4byte", "8byte", "cstr", "asciiz"}
 PreprocessorDirectives == {"include", "require", "create_memzone", "define", "if", "elif", "else", "endif", "ifdef", "ifndef", "mute", "unmute", "emit"}
